@@ -269,6 +269,23 @@ pub fn run(rep: &mut Report) {
         j_convert(&sub[(j / m) as usize], &sub[(j % m) as usize], x, &leap, out)
     });
     sweep(rep, "c12.sort", 3, |i, out| j_sort(i, &pts, out));
+    // far range, same scale: near both ends of the representable range (where conversions to another scale saturate)
+    // two epochs of one scale are still ordered by their counts
+    let mut far: Vec<i128> = vec![];
+    let year = 365 * 86_400 * NS;
+    for d in [1i128, NS, 86_400 * NS, 30 * year, 79 * year, 99 * year, 110 * year, 768 * NPC + 5] {
+        far.push(DMAX - d);
+        far.push(DMIN + d);
+    }
+    far.extend([25_000 * NPC + 7, -25_000 * NPC - 7]);
+    far.sort();
+    let nf = far.len() as u64;
+    rep.bound("far_points_per_scale", nf);
+    sweep(rep, "c12.far", 9 * nf * nf, |i, out| {
+        let ts = SCALES[(i / (nf * nf)) as usize];
+        let (ca, cb) = (far[((i / nf) % nf) as usize], far[(i % nf) as usize]);
+        j_pair(&Pt { ts, c: ca, tai: ca, exact: true }, &Pt { ts, c: cb, tai: cb, exact: true }, out)
+    });
 }
 
 pub fn replay(check: &str, a: &[String], out: &mut Local) -> bool {
@@ -276,6 +293,10 @@ pub fn replay(check: &str, a: &[String], out: &mut Local) -> bool {
     let mkpt = |ts: &str, c: &str| -> Pt {
         let ts = scale_from(ts);
         let c = p128(c);
+        if c.abs() > 20_000 * NPC {
+            // far-range points are only ever paired within one scale (c12.far): the count itself orders them
+            return Pt { ts, c, tai: c, exact: true };
+        }
         match scales::to_tai(c, ts, &leap) {
             Some(t) => Pt { ts, c, tai: t, exact: true },
             None => {
